@@ -80,6 +80,16 @@ TEXT = {
   "note": "Trusted: Coq kernel, extraction, driver, harness, add-only overlay exports of unexported readers. append_uniq = sorted insertion and mDNS view agreement are checked per case by extracted specs, not yet proved in general. Defects F5 (appendUniq) and F7 (mDNS eviction) fixed in /repo.",
   "technique": "Coq proof (association-list folds, eviction bound by induction) + differential correspondence check incl. real UDP mDNS packets",
  },
+ "C19": {
+  "text": "Proved in Coq (Properties/C19.v) on a model with one operation per mutating system call: for every sequence of activations and "
+          "deactivations, each completed or killed after any number of its mutations (also followed by further operations), the original resolver node "
+          "is intact at resolv.conf or as the backup, and a later deactivation restores it; activation of an unactivated system installs the managed "
+          "file (header, the other directives in order, exactly one nameserver line naming the proxy) and keeps the original (file or symlink) as backup; "
+          "deactivation after any number of activations restores it byte for byte. Tie: the real host.SetDNS/ResetDNS on a scratch /etc in a private "
+          "mount namespace with strace-injected SIGKILL at chosen system calls, tree compared with the model after every event.",
+  "note": "Trusted: Coq kernel, extraction, driver, harness, strace injection semantics, atomic rename(2). Power-loss reordering is not modelled (the code never syncs). Defect F10 (tab-separated nameserver kept) fixed in /repo.",
+  "technique": "Coq proof (safety invariant over all operation prefixes and histories) + crash-injection correspondence check on a real file system",
+ },
  "C13": {
   "text": "Proved in Coq (Properties/C13.v): nutterECSOption keeps the payload length, changes no byte outside the rewritten option, turns an option "
           "that lies inside the payload into code 0xFFFF with all-zero data, is memory-safe for every offset, and the option loop touches only "
